@@ -295,6 +295,9 @@ Definition pred_c05 (g : ghost) (w : world) (a : action) (O : oracle) (w' : worl
           let tok := aget f_token vals in
           match (if pw_rules_ok vals then find_user (fun u => recover_token_of O u tok) w else None) with
           | Some u =>
+              (* within two seconds of the expiry instant either answer is right (the harness's clock
+                 and the library's differ by the duration of the request) *)
+              if negb (o_now O + 2 <=? u_rexp u) then [] else
               match iuser_of i (u_pid u) with
               | Some u' => (if beqb (u_password u') (px (aget f_password vals)) && bempty (u_rsel u') && bempty (u_rver u')
                             then [] else [1053]) ++
@@ -355,7 +358,7 @@ Definition pred_c07 (g : ghost) (w : world) (a : action) (O : oracle) (w' : worl
       let before := uid_in (sess_of w b) in
       let after := uid_in (io_sess i) in
       match q_route r with
-      | RApp _ _ _ _ _ true expiremw =>
+      | RApp full _ _ _ _ true expiremw =>
           match before, alookup k_rm (cook_of w b) with
           | None, Some c =>
               if io_status i =? 0 then [] else
@@ -363,6 +366,9 @@ Definition pred_c07 (g : ghost) (w : world) (a : action) (O : oracle) (w' : worl
               | Some U =>
                   (* a valid cookie logs its owner in, rotates, marks half-auth and dies *)
                   (if obytes_eq after (Some U) then [] else [1072]) ++
+                  (* ... and grants only half-auth: it never carries the very request that consumed it
+                     past a RequireFullAuth gate *)
+                  (if full && beqb (io_page i) (bs "app") then [10701] else []) ++
                   (if ahas k_halfauth (io_sess i) then [] else [1074]) ++
                   (if obytes_eq (alookup k_rm (io_cook i)) (Some c) || negb (ahas k_rm (io_cook i)) then [1075] else []) ++
                   (match b64url_dec c with
@@ -655,7 +661,7 @@ Definition consuming_call (k : callkind) : bool :=
 Definition faulted_kinds (O : oracle) (i : iobs) : list callkind :=
   flat_map (fun f => match nth_error (io_calls i) (fst f) with Some k => [k] | None => [] end) (o_faults O).
 Definition ok_paths : list bytes :=
-  [p_login_ok; p_confirm_ok; p_logout_ok; p_oauth_ok; p_recover_ok; p_register_ok].
+  [p_login_ok_of cfg; p_confirm_ok_of cfg; p_logout_ok_of cfg; p_oauth_ok_of cfg; p_recover_ok_of cfg; p_register_ok_of cfg].
 Definition success_page (p : bytes) : bool :=
   bmem p [bs "totp2fa_confirm_success"; bs "totp2fa_remove_success"; bs "sms2fa_confirm_success"; bs "sms2fa_remove_success"].
 (* the response tells the client that the operation succeeded *)
